@@ -110,7 +110,10 @@ read needed to obtain the bytes already entitled (all received bytes for length/
 one in sixteen is a head-only 1xx/204/304 response followed by the pause (send() and the first read return at once). non-trivial = pause inside the body and entitled bytes non-empty";
 
     fn assumptions() -> Vec<String> {
-        vec!["a read that reaches the scripted pause is answered with TimedOut so the case ends; it is recorded by the transport (would_block)".into()]
+        vec![
+            "a read that reaches the scripted pause is answered with TimedOut so the case ends; it is recorded by the transport (would_block)".into(),
+            "a `log` logger that enables every level (and discards the records) is installed in this check's process".into(),
+        ]
     }
 
     fn cases_per_worker(tier: Tier) -> u32 {
@@ -154,6 +157,26 @@ one in sixteen is a head-only 1xx/204/304 response followed by the pause (send()
     }
 
     fn check(case: &Case, ctx: &mut Ctx) -> Outcome {
+        // a logger that accepts every level and discards the records is installed for this check: the library's log statements
+        // are then evaluated, and none of them may touch the connection
+        {
+            struct Discard;
+            impl log::Log for Discard {
+                fn enabled(&self, _: &log::Metadata) -> bool {
+                    true
+                }
+                fn log(&self, record: &log::Record) {
+                    // format the arguments like a real logger would
+                    let _ = std::hint::black_box(format!("{}", record.args()).len());
+                }
+                fn flush(&self) {}
+            }
+            static ONCE: std::sync::Once = std::sync::Once::new();
+            ONCE.call_once(|| {
+                let _ = log::set_logger(&Discard);
+                log::set_max_level(log::LevelFilter::Trace);
+            });
+        }
         if let Some(b) = case.bodiless {
             let status = BODILESS[b as usize % BODILESS.len()];
             let head = format!("HTTP/1.1 {status} X\r\nX-Pad: 1\r\n\r\n").into_bytes();
